@@ -111,11 +111,13 @@ def is_own(fr, sd_code):
 
 
 class Blocked:
-    """a helper thread parked in b1 -> b2 -> b3 -> Event.wait"""
+    """a helper thread parked in b1 -> b2 -> b3 -> <lock>.acquire().  Once `parked` is set the
+    thread executes no further Python-level call, so its f_back chain is stable."""
 
     def __init__(self):
-        self.ev = threading.Event()
-        self.ready = threading.Event()
+        self.lock = threading.Lock()
+        self.lock.acquire()
+        self.parked = False
         self.frames = []
         self.th = threading.Thread(target=self.b1, daemon=True)
 
@@ -129,24 +131,18 @@ class Blocked:
 
     def b3(self):
         self.frames.append(sys._getframe(0))
-        self.ready.set()
-        self.ev.wait()
+        self.parked = True
+        self.lock.acquire()
 
     def __enter__(self):
-        self.th.start()
-        self.ready.wait()
-        # wait until the thread is really parked inside Event.wait
         import time
-        for _ in range(2000):
-            fr = sys._current_frames().get(self.th.ident)
-            if fr is not None and fr.f_code.co_name == "wait" and fr.f_back is not None \
-                    and fr.f_back.f_code.co_name == "wait":
-                break
-            time.sleep(0.0005)
+        self.th.start()
+        while not self.parked:
+            time.sleep(0.0002)
         return self
 
     def __exit__(self, *a):
-        self.ev.set()
+        self.lock.release()
         self.th.join()
 
 
@@ -212,19 +208,30 @@ class Ctx:
             self.teardown_foreign()
 
     def run(self, base="thread"):
+        import time
         with Blocked() as b:
             self.blocked = b
             if base == "thread":
                 err = []
+                done = threading.Lock()
+                done.acquire()
+                self.main_parked = False
 
                 def target():
                     try:
+                        while not self.main_parked:
+                            time.sleep(0.0002)
                         self.entry()
                     except BaseException as ex:
                         import traceback
                         err.append(traceback.format_exc())
+                    finally:
+                        done.release()
                 th = threading.Thread(target=target)
                 th.start()
+                # from here on this (main) thread makes no Python-level call until it is released
+                self.main_parked = True
+                done.acquire()
                 th.join()
                 if err:
                     raise RuntimeError("scenario crashed: " + err[0][-1500:])
